@@ -215,7 +215,15 @@ vf_bn_ge2(bn_t s) {
 	return (s.digits >= 2 || (s.digits == 1 && s.num[0] >= 2));
 }
 /* point: both coordinates well-formed numbers (whatever the infinity flag says) */
+#ifdef VF_EC_WF_FIELDS
+/* field-wise form for the ladder jobs: a by-value copy of a table slot at a SYMBOLIC index is a
+ * 511-way multiplexer over 400 bytes (formula > 10 GB); reading count / digits / top digit is not */
+#define VF_BN_WF_F(n)		((n).count >= 1 && (n).count <= BN_MAX_DIGITS && (n).digits <= (n).count &&	\
+	((n).digits == 0 || (n).num[(n).digits - 1] != 0))
+#define VF_EC_POINT_WF(pt)	(VF_BN_WF_F((pt).x) && VF_BN_WF_F((pt).y))
+#else
 #define VF_EC_POINT_WF(pt)	(vf_bn_wf((pt).x) && vf_bn_wf((pt).y))
+#endif
 #define VF_EC_POINT_OK(p)	(__CPROVER_rw_ok((p), sizeof(ec_point_t)))
 /* result point of a successful multiplication: infinity, or two well-formed coordinates */
 #define VF_EC_POINT_RES(pt)	((pt).infinity != 0 || VF_EC_POINT_WF(pt))
